@@ -160,6 +160,39 @@ def r6_only_notfound_tolerated(ck, rule="C18-R6"):
                        "such directory' is passed over, the run goes on and can report success (and a file whose unlink failed is rewritten in "
                        "place)" % (fn.id, kind), fn.where(fn.blocks[bb]["term"]), ok_detail="NotFound only")
     ck.floor(rule, "tests of the error kind of a failed output operation", n, 3)
+    # ... and it is the `not found` side that carries on: on the other side of such a test (any other error) every path ends in an
+    # error return, none gets back to the work (the next statement, the next iteration, a normal return)
+    from .. import pathconst
+    m = 0
+    for fn in sorted(prog.fns.values(), key=lambda f: f.id):
+        if fn.crate != "rapidquilt":
+            continue
+        src = lambda x: isinstance(x, tuple) and x and x[0] == "call" and x[1] in OUT
+        for g in guards.find_bool_guards(fn, lambda x: isinstance(x, tuple) and x and x[0] == "call" and x[1].split("::")[-1] in ("eq", "ne") and len(x[2]) == 2):
+            a, b = g["expr"][2]
+            hit = None
+            for k_, c_ in ((a, b), (b, a)):
+                if df.is_call(k_, "io::error::Error::kind") and df.mentions(k_, src):
+                    pv = guards.promoted_value(fn, c_)
+                    if pv and pv[0] == "enum" and pv[2] == "NotFound":
+                        hit = True
+            if not hit:
+                continue
+            m += 1
+            is_eq = g["expr"][1].split("::")[-1] == "eq"
+            other_edge = g["false_edge"] if is_eq else g["true_edge"]
+            err_bbs = {bb for bb, idx, st in fn.stmts() if st["k"] == "assign" and st["lhs"]["l"] == 0 and not st["lhs"].get("p") and
+                       st["rv"]["k"] == "agg" and st["rv"].get("variant") == "Err"}
+            err_bbs |= {bb for bb, t in fn.calls() if (callee_of(t).get("path") or "").endswith("from_residual") and t["dest"]["l"] == 0}
+            r = pathconst.reach_under(fn, lambda e_: None, None, blocked=err_bbs, valuation=lambda e_: None, prog=prog, start=[other_edge[1]]) \
+                if other_edge[1] not in err_bbs else set()
+            loop = cfg.innermost_loop_of(fn, g["bb"])
+            goes_on = [b_ for b_ in r if fn.blocks[b_]["term"]["k"] == "return"] or (loop is not None and loop[0] in r)
+            ck.require(not goes_on, rule, "an error other than `not found` ends in an error return (%s)" % fn.id.split("::")[-1],
+                       "after a failed output operation the side of the `NotFound` test taken for every OTHER error can carry on (reach a "
+                       "normal return or the next iteration): the failure is passed over", fn.where(fn.blocks[g["bb"]]["term"]),
+                       ok_detail="the non-NotFound side only reaches error returns")
+    ck.floor(rule, "NotFound tests after a failed output operation", m, 2)
 
 
 def flush_sites(ck, fn):
